@@ -29,6 +29,26 @@ WRITES = ('''r is Ok ==> ({ let t0 = old(self).out.text(); let t1 = final(self).
                 ||| (t1 =~= t0.push('\\'') + sq_body(s@) + seq!['\\''] && old(self).quote_all && !needs_dq(s@)) })''')
 
 CHARS = [(1, 'chars')]
+import re as _re
+def _on_sink(item):
+    """R38: a method that touches `self` only through `self.out` is verified as a function of that field (`out: &mut Sink`);
+    the method itself is a two-line wrapper in quoting.shim.rs whose frame (`same_pos`) then holds by construction.  If a
+    change makes the body use another field, the rewritten text no longer compiles and the item is reported UNDECIDED."""
+    def sub(t):
+        t = t.replace('old(self).out', 'old(out)').replace('final(self).out', 'final(out)').replace('self.out', 'out')
+        return t
+    it = dict(item)
+    name = it['path'].split('fn ')[-1]
+    it['rename'] = name + '__out'
+    it['pre_rewrites'] = list(it.get('pre_rewrites', [])) + [(r'fn %s\(&mut self, ' % name, 'fn %s(out: &mut Sink, ' % name, 1, 'R38'),
+                                                             (r'\bself\.out\b', 'out', None, 'R38')]
+    if 'rewrites' in it: it['rewrites'] = [(rw[0].replace(r'self\.out', 'out'), rw[1].replace('self.out', 'out')) + tuple(rw[2:]) for rw in it['rewrites']]
+    for k in ('ensures', 'requires'):
+        if k in it: it[k] = [(l, sub(t)) for (l, t) in it[k] if l != 'frame']
+    if 'proofs' in it: it['proofs'] = [dict(p, text=sub(p['text'])) for p in it['proofs']]
+    if 'loops' in it:
+        it['loops'] = {k: dict(v, invariant=[(l, sub(t).replace('same_pos(self, old(self)) && ', '')) for (l, t) in v.get('invariant', [])]) for k, v in it['loops'].items()}
+    return it
 ITEMS = [
     dict(src=SR, path='enum PendingFlow', derive='#[derive(Clone, Copy, PartialEq, Eq)]'),
     dict(src=SR, path='enum StrStyle', derive='#[derive(Clone, Copy, PartialEq, Eq)]'),
@@ -37,8 +57,9 @@ ITEMS = [
     dict(src=SR, path='impl YamlSerializer/fn newline', props=['C20'],
          ensures=[('appends_newline', 'r is Ok ==> final(self).out.text() == old(self).out.text().push(\'\\n\')'),
                   ('frame', 'final(self).in_flow == old(self).in_flow && final(self).pending_inline_comment == old(self).pending_inline_comment'),
-                  ('frame_block', 'same_block_cfg(final(self), old(self))')]),
-    dict(src=SR, path='impl YamlSerializer/fn write_quoted', props=['C12', 'C01'], loop_rewrites=CHARS,
+                  ('frame_block', 'same_block_cfg(final(self), old(self)) && final(self).doc_started == old(self).doc_started && final(self).pending_space_after_colon == old(self).pending_space_after_colon'),
+                  ('next_write_is_at_a_line_start', 'r is Ok ==> final(self).at_line_start')]),
+    _on_sink(dict(src=SR, path='impl YamlSerializer/fn write_quoted', props=['C12', 'C01'], loop_rewrites=CHARS,
          rewrites=[(r'write!\(self\.out, "\\\\x\{:02X\}", c as u32\)\?', 'self.out.write_x2(c as u32)?', None, 'R12'),
                    (r'write!\(self\.out, "\\\\u\{:04X\}", c as u32\)\?', 'self.out.write_u4(c as u32)?', None, 'R12'),
                    (r'\(0x7F\.\.=0x9F\)\.contains\(&\(c as u32\)\)', '(0x7F <= (c as u32) && (c as u32) <= 0x9F)', None, 'R24')],
@@ -51,12 +72,13 @@ ITEMS = [
                      reveal_strlit("\\\\e"); reveal_strlit("\\\\uFEFF"); reveal_strlit("\\\\N"); reveal_strlit("\\\\L"); reveal_strlit("\\\\P");'''),
                  dict(after_loop=1, text='assert(s@.take(__i1 as int) =~= s@);')],
          ensures=[('C12:double_quoted_text_is_the_yaml_escape_of_every_character',
-                   'r is Ok ==> final(self).out.text() =~= old(self).out.text().push(\'"\') + dq_body(s@) + seq![\'"\']')],
-         loops={1: dict(invariant=[('prefix_escaped', '''__n1 == s@.len() && __i1 <= __n1
+                   'r is Ok ==> final(self).out.text() =~= old(self).out.text().push(\'"\') + dq_body(s@) + seq![\'"\']'),
+                  ('frame', 'same_pos(final(self), old(self))')],
+         loops={1: dict(invariant=[('prefix_escaped', '''same_pos(self, old(self)) && __n1 == s@.len() && __i1 <= __n1
                         && self.out.text() =~= t0.push('"') + dq_body(s@.take(__i1 as int))''')],
                         decreases='__n1 - __i1')},
-         canaries=['C12:double_quoted_text_is_the_yaml_escape_of_every_character']),
-    dict(src=SR, path='impl YamlSerializer/fn write_single_quoted', props=['C12', 'C01'], loop_rewrites=CHARS,
+         canaries=['C12:double_quoted_text_is_the_yaml_escape_of_every_character'])),
+    _on_sink(dict(src=SR, path='impl YamlSerializer/fn write_single_quoted', props=['C12', 'C01'], loop_rewrites=CHARS,
          proofs=[dict(at='start', ghost=True, text='let ghost t0 = self.out.text();'),
                  dict(after='__i1 += 1;', text='''
                      assert(s@.take(__i1 as int).drop_last() =~= s@.take(__i1 as int - 1));
@@ -64,11 +86,12 @@ ITEMS = [
                      reveal_strlit("''");'''),
                  dict(after_loop=1, text='assert(s@.take(__i1 as int) =~= s@);')],
          ensures=[('C12:single_quoted_text_doubles_every_quote',
-                   "r is Ok ==> final(self).out.text() =~= old(self).out.text().push('\\'') + sq_body(s@) + seq!['\\'']")],
-         loops={1: dict(invariant=[('prefix_escaped', '''__n1 == s@.len() && __i1 <= __n1
+                   "r is Ok ==> final(self).out.text() =~= old(self).out.text().push('\\'') + sq_body(s@) + seq!['\\'']"),
+                  ('frame', 'same_pos(final(self), old(self))')],
+         loops={1: dict(invariant=[('prefix_escaped', '''same_pos(self, old(self)) && __n1 == s@.len() && __i1 <= __n1
                         && self.out.text() =~= t0.push('\\'') + sq_body(s@.take(__i1 as int))''')],
                         decreases='__n1 - __i1')},
-         canaries=['C12:single_quoted_text_doubles_every_quote']),
+         canaries=['C12:single_quoted_text_doubles_every_quote'])),
     dict(src=SR, path='impl YamlSerializer/fn write_end_of_scalar', props=['C20', 'C01'],
          rewrites=[(r'self\.out\.write_str\(&c\)\?', 'self.out.write_str(c.as_str())?', None, 'R15')],
          proofs=[dict(at='start', text='reveal_strlit(" # ");')],
@@ -107,10 +130,12 @@ ITEMS = [
     dict(src=SR, path='impl YamlSerializer/fn needs_double_quotes', trusted=True, props=[],
          ensures=[('iterator_any_is_opaque', 'r == needs_dq(s@)')]),
     dict(src=SR, path='impl YamlSerializer/fn write_plain_or_quoted', props=['C12', 'C01'],
-         ensures=[('C12:a_key_is_written_raw_only_if_it_reads_back_as_itself_else_quoted', WRITES % 'false')],
+         ensures=[('C12:a_key_is_written_raw_only_if_it_reads_back_as_itself_else_quoted', WRITES % 'false'),
+                  ('frame', 'same_pos(final(self), old(self))')],
          canaries=['C12:a_key_is_written_raw_only_if_it_reads_back_as_itself_else_quoted']),
     dict(src=SR, path='impl YamlSerializer/fn write_plain_or_quoted_value', props=['C12', 'C01'],
-         ensures=[('C12:a_value_is_written_raw_only_if_it_reads_back_as_itself_else_quoted', WRITES % 'old(self).in_flow > 0')],
+         ensures=[('C12:a_value_is_written_raw_only_if_it_reads_back_as_itself_else_quoted', WRITES % 'old(self).in_flow > 0'),
+                  ('frame', 'same_pos(final(self), old(self))')],
          canaries=['C12:a_value_is_written_raw_only_if_it_reads_back_as_itself_else_quoted']),
     # ---- folding of long single lines (C20 / C12: a fold replaces exactly one space of a run by the line break) ----
     dict(src='src/wrapping.rs', path='fn write_folded_block', props=['C20', 'C12', 'C01'],
@@ -176,10 +201,21 @@ ITEMS = [
                   ('frame', 'r is Ok ==> same_block_cfg(final(self), old(self)) && !final(self).pending_space_after_colon && final(self).at_line_start == old(self).at_line_start')]),
     dict(src=SR, path='impl YamlSerializer/fn write_indent', props=['C12', 'C20', 'C01'], loop_rewrites=[(1, 'range')],
          requires=[('indent_fits', 'old(self).indent_step * depth <= usize::MAX')],
+         proofs=[dict(at='start', ghost=True, text='let ghost t0 = self.out.text();'),
+                 dict(at='start', text='assert(fold_spaces(0) =~= Seq::<char>::empty());'),
+                 dict(after_re=r'self\.out\.write_str\("%YAML[^"]*"\)\?;', text='reveal_strlit("%YAML 1.2\\n---\\n"); reveal_strlit("%YAML 1.2\\n");'),
+                 dict(after_re=r'let _\w* = __i1; __i1 \+= 1;', text='assert(fold_spaces(__i1 as int) =~= fold_spaces(__i1 as int - 1).push(\' \'));')],
          ensures=[('frame', 'r is Ok ==> same_block_cfg(final(self), old(self)) && final(self).pending_space_after_colon == old(self).pending_space_after_colon && !final(self).at_line_start'),
-                  ('nothing_is_written_in_the_middle_of_a_line', 'r is Ok && !old(self).at_line_start ==> final(self).out.text() == old(self).out.text()')],
-         loops={1: dict(invariant=[('frame', '__i1 <= __n1 && same_block_cfg(self, old(self)) && self.pending_space_after_colon == old(self).pending_space_after_colon')],
-                        decreases='__n1 - __i1')}),
+                  ('nothing_is_written_in_the_middle_of_a_line', 'r is Ok && !old(self).at_line_start ==> final(self).out.text() == old(self).out.text()'),
+                  # YAML 1.2 (9.1.2 / 9.2): a directive is part of a document prefix that MUST end with the `---` marker
+                  ('C20:the_yaml_directive_is_followed_by_a_document_start_marker_and_then_only_the_indentation',
+                   """r is Ok && old(self).at_line_start ==> final(self).out.text() =~= old(self).out.text()
+                        + (if !old(self).doc_started && old(self).yaml_12 { yaml12_document_prefix() } else { Seq::<char>::empty() })
+                        + fold_spaces(old(self).indent_step * depth)""")],
+         loops={1: dict(invariant=[('frame', '__i1 <= __n1 && __n1 == old(self).indent_step * depth && same_block_cfg(self, old(self)) && self.pending_space_after_colon == old(self).pending_space_after_colon'),
+                                   ('spaces_so_far', """self.out.text() =~= t0 + (if !old(self).doc_started && old(self).yaml_12 { yaml12_document_prefix() } else { Seq::<char>::empty() }) + fold_spaces(__i1 as int)""")],
+                        decreases='__n1 - __i1')},
+         canaries=['C20:the_yaml_directive_is_followed_by_a_document_start_marker_and_then_only_the_indentation']),
     dict(src=SR, path='impl YamlSerializer/fn write_folded_block', id='YamlSerializer::write_folded_block', props=['C20', 'C01'],
          rewrites=[(r'crate::wrapping::write_folded_block\(', 'write_folded_block(', 1, 'R9')],
          requires=[('indent_fits', 'old(self).indent_step * indent <= usize::MAX')],
@@ -287,4 +323,51 @@ ITEMS = [
                                     && self.out.text() =~= t2 + block_lines_text(fold_spaces(body_col), (if cont.len() == 0 { Seq::<Seq<char>>::empty().push(Seq::<char>::empty()) } else { split_lines(cont) }) + empties(__i3 as nat))""")],
                         decreases='__n3 - __i3')},
          ),
+    # ---- where a tuple variant puts its name and its items (C12: strings in enum payload position) ----
+    # YAML block structure (7.? / 8.2): a block mapping that is the value of a mapping key starts on a following line,
+    # indented deeper than that key; the items of a block sequence that is the value of a key are not left of the key.
+    dict(src=SR, path='impl Serializer for &mut YamlSerializer/fn serialize_tuple_variant', id='YamlSerializer::serialize_tuple_variant#prologue',
+         impl_header="impl<'a> YamlSerializer<'a>", props=['C12', 'C01'],
+         pre_rewrites=[(r"fn serialize_tuple_variant\(\s*self,\s*_name: &'static str,\s*_variant_index: u32,\s*variant: &'static str,\s*_len: usize,\s*\) -> Result<Self::SerializeTupleVariant>",
+                        "fn serialize_tuple_variant_prologue(&mut self, variant: &'static str, Ghost(pcol): Ghost<int>) -> Result<usize, SerError>", 1, 'R9')],
+         rewrites=[(r'Ok\(TupleVariantSer \{\s*ser: self,\s*depth: ([^,]+),\s*\}\)', r'Ok(\1)', None, 'R9')],
+         requires=[('assumed:valid_options', 'old(self).indent_step >= 1'),
+                   ('assumed:layout_fits_the_machine', '''old(self).depth + 3 <= usize::MAX && (old(self).current_map_depth is Some ==> old(self).current_map_depth->Some_0 + 3 <= usize::MAX)
+                        && (old(self).after_dash_depth is Some ==> old(self).after_dash_depth->Some_0 + 3 <= usize::MAX)
+                        && old(self).indent_step * (old(self).depth + 3) <= usize::MAX
+                        && (old(self).current_map_depth is Some ==> old(self).indent_step * (old(self).current_map_depth->Some_0 + 3) <= usize::MAX)
+                        && (old(self).after_dash_depth is Some ==> old(self).indent_step * (old(self).after_dash_depth->Some_0 + 3) <= usize::MAX)'''),
+                   # layout (MapSer / SeqSer, outside this unit): in value position the key of the enclosing mapping is at column
+                   # indent_step * (its depth); right after "- " the dash is at column indent_step * after_dash_depth
+                   ('assumed:a_mapping_key_has_been_written_so_the_document_has_started', 'old(self).pending_space_after_colon ==> old(self).doc_started'),
+                   ('assumed:layout_parent_column', '''(old(self).pending_space_after_colon ==> pcol == old(self).indent_step * (match old(self).current_map_depth { Some(d) => d as int, None => old(self).depth as int }))
+                        && (!old(self).pending_space_after_colon && !old(self).at_line_start && old(self).after_dash_depth is Some ==> pcol == old(self).indent_step * old(self).after_dash_depth->Some_0)''')],
+         proofs=[dict(at='start', text='''let st = self.indent_step as int; let dp = self.depth as int;
+                      let kd = match self.current_map_depth { Some(d) => d as int, None => dp };
+                      let dd = match self.after_dash_depth { Some(d) => d as int, None => 0int };
+                      assert(st * (kd + 1) == st * kd + st && st * (kd + 2) == st * kd + 2 * st && st * (kd + 3) == st * kd + 3 * st) by(nonlinear_arith);
+                      assert(st * (dp + 1) == st * dp + st && st * (dp + 2) == st * dp + 2 * st && st * (dp + 3) == st * dp + 3 * st) by(nonlinear_arith);
+                      assert(st * (dd + 1) == st * dd + st && st * (dd + 2) == st * dd + 2 * st && st * (dd + 3) == st * dd + 3 * st) by(nonlinear_arith);
+                      assert(st * kd >= 0 && st * dp >= 0 && st * dd >= 0) by(nonlinear_arith) requires st >= 1, kd >= 0, dp >= 0, dd >= 0;'''),
+                 dict(at='start', ghost=True, text='let ghost mut tm: Seq<char> = Seq::empty(); let ghost t0 = self.out.text();'),
+                 dict(before_re=r'self\.write_plain_or_quoted\(variant\)\?;', nth=1, optional=True, text='tm = self.out.text();'),
+                 dict(after_re=r'self\.write_plain_or_quoted\(variant\)\?;', nth=1, optional=True, text='assert(self.out.text().subrange(0, tm.len() as int) =~= tm);'),
+                 dict(after_re=r'self\.out\.write_str\(":\\n"\)\?;', nth=1, optional=True,
+                      text='''assert(self.out.text().subrange(0, tm.len() as int) =~= tm);
+                              if tm.len() > t0.len() { assert(self.out.text().subrange(0, t0.len() as int) =~= tm.subrange(0, t0.len() as int));
+                                  assert(self.out.text().subrange(t0.len() as int + 1, tm.len() as int) =~= tm.subrange(t0.len() as int + 1, tm.len() as int)); }''')],
+         ensures=[('C12:a_variant_name_in_value_position_starts_on_its_own_line_indented_deeper_than_the_key_it_belongs_to',
+                   '''r is Ok && old(self).pending_space_after_colon ==> ({
+                        let t0 = old(self).out.text(); let t1 = final(self).out.text();
+                        let c = old(self).indent_step * ((match old(self).current_map_depth { Some(d) => d as int, None => old(self).depth as int }) + 1);
+                        c > pcol && t1.len() >= t0.len() + 1 + c && t1.subrange(0, t0.len() as int) =~= t0 && t1[t0.len() as int] == '\\n'
+                        && t1.subrange(t0.len() as int + 1, t0.len() as int + 1 + c) =~= fold_spaces(c)
+                        && old(self).indent_step * r->Ok_0 >= c })'''),
+                  ('C12:the_items_of_a_variant_that_follows_a_dash_are_not_left_of_its_name',
+                   '''r is Ok && !old(self).pending_space_after_colon && !old(self).at_line_start && old(self).after_dash_depth is Some
+                        ==> old(self).indent_step * r->Ok_0 >= pcol + 2'''),
+                  ('C12:the_items_of_a_variant_at_the_start_of_a_line_are_not_left_of_its_name',
+                   '''r is Ok && !old(self).pending_space_after_colon && old(self).at_line_start && old(self).after_dash_depth is None
+                        ==> old(self).indent_step * r->Ok_0 >= old(self).indent_step * old(self).depth''')],
+         canaries=['C12:a_variant_name_in_value_position_starts_on_its_own_line_indented_deeper_than_the_key_it_belongs_to']),
 ]
